@@ -68,3 +68,15 @@ Proof.
   - rewrite src_clear. unfold then_ret. destruct (clear (ar w)) as [a' [olds|c|]]; cbn; auto.
   - cbn. auto.
 Qed.
+
+(* ---- whole histories through the regenerated operations ---- *)
+Definition g_run (dbg : bool) (ops : list op) (a : arena) : arena :=
+  fold_left (fun a o => fst (g_op dbg o a)) ops a.
+
+Lemma g_run_is_run dbg ops : forall w, g_run dbg ops (ar w) = ar (run dbg ops w).
+Proof.
+  induction ops as [|o ops IH]; intros w; [reflexivity|].
+  cbn [g_run fold_left run]. fold (g_run dbg ops). fold (run dbg ops).
+  pose proof (src_step dbg w o) as H. destruct (g_op dbg o (ar w)) as [a' r]. destruct H as [H _].
+  cbn [fst]. rewrite <- H. apply IH.
+Qed.
